@@ -66,7 +66,7 @@ def run(ctx):
         if m.behaviours == 0:
             raise MachineryFault("a specification emitted no behaviour")
     if not quick:
-        dead = [a for a in inc.coverage_zero if a in ("Step", "Return", "Finish")]
+        dead = wlint.dead_actions(inc.out_path, ("Step", "Return", "Finish"))
         if dead:
             raise MachineryFault("Include.tla actions never taken: %s" % dead)
     ctx.notes["include_graphs"] = inc.behaviours
